@@ -21,7 +21,7 @@ DISPATCH = {
     "scrypt-refuse": B.t_scrypt_refuse,
     "bcrypt-hash": B.t_bcrypt_hash, "bcrypt-refuse": B.t_bcrypt_refuse, "bcrypt-check": B.t_bcrypt_check,
     "bcrypt-mut": B.t_bcrypt_mut,
-    "s2v": B.t_s2v, "s2v-limit": B.t_s2v_limit,
+    "s2v": B.t_s2v, "s2v-limit": B.t_s2v_limit, "s2v-hist": B.t_s2v_hist,
 }
 
 
@@ -62,6 +62,8 @@ def replay(case, acc):
         B.check_bcrypt_pair(pw, h, exp, acc, "replay")
     elif part == "s2v":
         B.check_s2v(case["key"], case["comps"], acc)
+    elif part == "s2v-history":
+        B.s2v_history(case["key"], tuple(case["hist"]), acc)
     else:
         acc.error("unknown replay part %r" % part)
 
@@ -110,5 +112,7 @@ def grid_description(quick):
                       "labels_x_contexts": "5x5 incl. 200 bytes and zero bytes" + (" (cross)" if quick else "")},
         "s2v": {"keys": "AES-128/192/256", "components": "every vector of 0..4 components with lengths in "
                 + str(list(B.S2V_LENS)) + " (1555 vectors per key); 5/126/127 components; 128th refused",
-                "key_value_classes": 4 if quick else 12},
+                "key_value_classes": 4 if quick else 12,
+                "object_histories": "one _S2V object: every sequence of up to %d update(0|5|16|17 bytes) / derive() calls; every "
+                                    "derive() equals S2V of the components fed so far" % (5 if quick else 6)},
     }
